@@ -3,5 +3,6 @@ package all
 
 import (
 	_ "verifmc/props/c03"
+	_ "verifmc/props/c04"
 	_ "verifmc/props/c15"
 )
